@@ -38,6 +38,54 @@ Tokens == <<"x", "y", "1", "\"s\"", ":=", "=", "(", ")", "{", "}", "[", "]", ","
             "try", "catch", "finally", "throw", "import", ".", "...", "+", "const", "var", "param", "global", "break", "?", ":", "\n", "'c'", "iota", "undefined", "!"  >>
 NT == Len(Tokens)
 
+(* Part "near": valid skeleton programs covering every statement kind, changed by one
+   (MaxLen = 1) or two (MaxLen = 2) token-level edits - insertion of any alphabet token,
+   deletion, replacement, duplication of a two-token window (one more element in any
+   list), exchange of neighbours.  This reaches the error paths of the parser and the
+   compiler at lengths the exhaustive token strings cannot. *)
+Skel == <<
+  <<"global", "(", "x", ",", "y", ")", "\n", "for", "x", ",", "y", "in", "[", "1", "]", "{", "x", "=", "y", "}">>,
+  <<"global", "(", "x", ",", "y", ")", "\n", "if", "x", "{", "y", "=", "1", "}", "else", "{", "return", "x", "&&", "y", "}">>,
+  <<"global", "(", "x", ",", "y", ")", "\n", "f", ":=", "func", "(", "a", ",", "...", "b", ")", "{", "return", "a", "+", "x", "}", "\n",
+    "return", "f", "(", "1", ",", "...", "[", "y", "]", ")">>,
+  <<"global", "x", "\n", "try", "{", "throw", "x", "}", "catch", "e", "{", "return", "e", "}", "finally", "{", "x", "=", "1", "}">>,
+  <<"global", "x", "\n", "for", "i", ":=", "0", ";", "i", "<", "3", ";", "i", "++", "{", "if", "i", "{", "continue", "}", "\n", "break", "}">>,
+  <<"const", "(", "a", "=", "iota", ",", "b", ")", "\n", "var", "(", "c", ",", "d", "=", "1", ")", "\n", "return", "[", "a", ",", "b", ",", "c", ",", "d", "]">>,
+  <<"global", "x", "\n", "a", ",", "b", ":=", "[", "1", ",", "2", "]", "\n", "a", ",", "b", "=", "[", "b", ",", "a", "]", "\n", "return", "a">>,
+  <<"global", "x", "\n", "return", "x", "?", "{", "k", ":", "1", ",", "\"s\"", ":", "[", "2", "]", "}", ".", "k", ":", "x", "[", "0", "]", "[", "1", ":", "2", "]">>,
+  <<"param", "(", "a", ",", "...", "b", ")", "\n", "global", "x", "\n", "return", "import", "(", "\"m\"", ")", ".", "k", "(", "a", ")">>,
+  <<"global", "x", "\n", "x", "+=", "1", "\n", "x", "++", "\n", "return", "!", "x", "==", "-", "x", "||", "'c'", "<", "\"s\"">>,
+  <<"global", "x", "\n", "for", "{", "x", "=", "func", "(", ")", "{", "return", "1", "}", "(", ")", "\n", "if", "x", "{", "break", "}", "}">>,
+  <<"global", "x", "\n", "for", "x", "{", "try", "{", "return", "1", "}", "finally", "{", "x", "=", "2", "}", "}", "\n", "return", "x", "||", "x", "&&", "1">>
+>>
+MaxSkel == 34
+\* an edit: t = 0 none, 1 insert token y after position p, 2 delete position p, 3 replace position p by token y,
+\* 4 repeat the window p, p+1 after itself, 5 exchange positions p and p+1
+EditOK(s, e) == CASE e.t = 0 -> e.p = 0 /\ e.y = 1
+                  [] e.t = 1 -> e.p \in 0..Len(s)
+                  [] e.t = 2 -> e.p \in 1..Len(s) /\ e.y = 1
+                  [] e.t = 3 -> e.p \in 1..Len(s) /\ Tokens[e.y] # s[e.p]
+                  [] OTHER   -> e.p \in 1..(Len(s) - 1) /\ e.y = 1 /\ (e.t = 5 => s[e.p] # s[e.p + 1])
+Edit(s, e) == CASE e.t = 0 -> s
+                [] e.t = 1 -> SubSeq(s, 1, e.p) \o <<Tokens[e.y]>> \o SubSeq(s, e.p + 1, Len(s))
+                [] e.t = 2 -> SubSeq(s, 1, e.p - 1) \o SubSeq(s, e.p + 1, Len(s))
+                [] e.t = 3 -> [s EXCEPT ![e.p] = Tokens[e.y]]
+                [] e.t = 4 -> SubSeq(s, 1, e.p + 1) \o SubSeq(s, e.p, Len(s))
+                [] OTHER   -> [s EXCEPT ![e.p] = s[e.p + 1], ![e.p + 1] = s[e.p]]
+EditSet == [t : 0..5, p : 0..(MaxSkel + 2), y : 1..NT]
+NoEdit == [t |-> 0, p |-> 0, y |-> 1]
+\* the second edit is structural only (the neighbourhood of two arbitrary edits is out of reach)
+Edit2Set == [t : {2, 4, 5}, p : 1..(MaxSkel + 2), y : {1}]
+
+(* Part "evalseq": an Eval session is a sequence of fragments compiled against the state
+   earlier fragments left behind - including fragments that failed half way (after an
+   import, a declaration, a constant).  Every sequence up to MaxLen fragments over the
+   catalogue; only totality and well-formed bytecode are required. *)
+Frags == <<"x := import(\"m\")", "x := import(\"m\"); undefinedvar", "return import(\"m\")", "z := import(\"bm\"); undefinedvar",
+           "return import(\"bm\").k", "a := 1; undefinedvar", "a := 2", "a = 3; return a", "f := func() { return import(\"m2\") }; undefinedvar",
+           "return f()", "const c = 1; undefinedvar", "return c", "g := func() { return a }; return g(", "return import(\"m2\")",
+           "for a, b, c in [1] {}", "try { return import(\"m\") } finally { undefinedvar }">>
+
 VARIABLES c, ph
 vars == <<c, ph>>
 \* nesting depth of expressions / statements: no operand width limits it, the compiler's and the optimizer's own
@@ -47,16 +95,24 @@ NestKinds == {"parens", "unary", "not", "array", "map", "binary-right", "binary-
 Init == ph = 0 /\ (IF Part = "limits"
                    THEN \/ c \in {x \in [r : Resources, d : {-1, 0, 1}, nest : Nestings, form : UNION {Forms(r) : r \in Resources}] : x.form \in Forms(x.r)}
                         \/ c \in [r : {"depth"}, d : Depths, nest : {"main", "function"}, form : NestKinds]
+                   ELSE IF Part = "near" THEN c \in [d : 1..Len(Skel), e1 : EditSet, e2 : {NoEdit}] /\ EditOK(Skel[c.d], c.e1)
+                   ELSE IF Part = "evalseq" THEN c \in [n : 0..MaxLen, s : [1..MaxLen -> 1..Len(Frags)]]
                    ELSE c \in [n : 0..MaxLen, s : [1..MaxLen -> 1..NT]])
 Judge == ph = 0 /\ ph' = 1 /\ UNCHANGED c
-Next == Judge
+\* the second edit is a step (TLC computes initial states single-threaded)
+Edit2 == /\ ph = 0 /\ Part = "near" /\ MaxLen >= 2 /\ c.e1.t # 0
+         /\ \E e \in Edit2Set : EditOK(Edit(Skel[c.d], c.e1), e) /\ c' = [c EXCEPT !.e2 = e]
+         /\ ph' = 1
+Next == Judge \/ Edit2
 Spec == Init /\ [][Next]_vars
-Canon == Part = "soup" => \A i \in (c.n + 1)..MaxLen : c.s[i] = 1
+Canon == Part \in {"soup", "evalseq"} => \A i \in (c.n + 1)..MaxLen : c.s[i] = 1
 \* the capacity table is monotone: one more than the capacity never fits
 Monotone == (ph = 1 /\ Part = "limits" /\ c.r # "depth") => (Predict(c.r, Capacity(c.r)) = "ok" /\ Predict(c.r, Capacity(c.r) + 1) = "error")
 Export == (ph = 1 /\ Canon) =>
   CSVWrite("%1$s", <<ToJson(IF Part = "limits"
                             THEN (IF c.r = "depth" THEN [k |-> "limit", r |-> c.r, n |-> c.d, nest |-> c.nest, form |-> c.form, pred |-> "any"]
                                   ELSE [k |-> "limit", r |-> c.r, n |-> Capacity(c.r) + c.d, nest |-> c.nest, form |-> c.form, pred |-> Predict(c.r, Capacity(c.r) + c.d)])
+                            ELSE IF Part = "near" THEN [k |-> "near", s |-> Edit(Edit(Skel[c.d], c.e1), c.e2)]
+                            ELSE IF Part = "evalseq" THEN [k |-> "evalseq", s |-> [i \in 1..c.n |-> Frags[c.s[i]]]]
                             ELSE [k |-> "soup", s |-> [i \in 1..c.n |-> Tokens[c.s[i]]]])>>, IOEnv.OUT)
 =============================================================================
